@@ -48,6 +48,13 @@ func QualName(f *ssa.Function) string {
 	} else if o := f.Object(); o != nil && o.Pkg() != nil {
 		pk = o.Pkg().Name()
 	}
+	if a, ok := aliases[f]; ok {
+		// a renamed function (or a method of a renamed type) keeps the name the rules know it by (see anchors.go)
+		if strings.HasPrefix(a, "(*") {
+			return "(*" + pk + "." + a[2:]
+		}
+		return pk + "." + a
+	}
 	if recv := f.Signature.Recv(); recv != nil {
 		t := recv.Type()
 		star := ""
